@@ -648,3 +648,4 @@ def _(ctx):
         ctx.prove('guard%d' % i, pre + [near] + ax, z3.RealVal(c) >= 4 * to_z3(U_DBL) * _mag(E), check_vacuity=False, tactics=('nlsat', 'default'), pins=pins,
                   model_vars={'xu': xu, 'xd': xd})
     ctx.record('guards', PROVED if len(guards) == 2 else FAILED, 'B', 0, '%d guards of the form |E| < c found on the paths (two zeros of y)' % len(guards))
+from contracts import ieee_finite as _ieee; _ieee.register('C11')  # noqa: IEEE finiteness of the one-argument loop functions
